@@ -501,3 +501,67 @@ func LocPrecedence(p *core.Prog, r *core.Report) {
 		}
 	}
 }
+
+// LocGrammar decides LOC-GRAMMAR: wherever the location grammar is assembled,
+// the operand of complement(...) is the grammar itself (a pointer to the
+// parser variable that the enclosing pars.Any is assigned to), so that
+// complement() admits every form the grammar admits - points, nested
+// complements, joins - and not just one of them.
+func LocGrammar(p *core.Prog, r *core.Report) {
+	r.Rule("LOC-GRAMMAR", "every call of gts.parseComplement takes the address of a pars.Parser variable that is assigned a pars.Any(...) alternative list (the recursive knot of the grammar), never a single leaf parser", 2)
+	info := p.Info(core.PkgGts)
+	pk := p.Pkg(core.PkgGts)
+	// variables assigned a pars.Any(...)
+	anyVars := map[types.Object]bool{}
+	for _, f := range pk.Syntax {
+		ast.Inspect(f, func(n ast.Node) bool {
+			var lhs []ast.Expr
+			var rhs []ast.Expr
+			switch x := n.(type) {
+			case *ast.AssignStmt:
+				lhs, rhs = x.Lhs, x.Rhs
+			case *ast.ValueSpec:
+				for _, nm := range x.Names {
+					lhs = append(lhs, nm)
+				}
+				rhs = x.Values
+			default:
+				return true
+			}
+			if len(lhs) != len(rhs) {
+				return true
+			}
+			for i := range lhs {
+				if c, ok := ast.Unparen(rhs[i]).(*ast.CallExpr); ok && core.IsCallTo(info, c, "github.com/go-pars/pars.Any") {
+					if o := core.ObjOf(info, lhs[i]); o != nil {
+						anyVars[o] = true
+					}
+				}
+			}
+			return true
+		})
+	}
+	n := 0
+	for _, f := range pk.Syntax {
+		ast.Inspect(f, func(nd ast.Node) bool {
+			c, ok := nd.(*ast.CallExpr)
+			if !ok || !core.IsCallTo(info, c, core.PkgGts+".parseComplement") || len(c.Args) != 1 {
+				return true
+			}
+			n++
+			key := fmt.Sprintf("gts.parseComplement|call#%d", n)
+			u, ok := ast.Unparen(c.Args[0]).(*ast.UnaryExpr)
+			if ok && u.Op == token.AND {
+				if o := core.ObjOf(info, u.X); o != nil && anyVars[o] {
+					r.Ok("LOC-GRAMMAR", key, p.Pos(c.Pos()), "operand is the grammar variable "+types.ExprString(u.X))
+					return true
+				}
+			}
+			r.Bad("LOC-GRAMMAR", key, p.Pos(c.Pos()), "the operand of complement(...) is `"+types.ExprString(c.Args[0])+"`, not the location grammar itself: complement(point), nested complements or complement(join(...)) are no longer accepted here and fall through to another interpretation")
+			return true
+		})
+	}
+	if n == 0 {
+		r.Und("LOC-GRAMMAR", "gts.parseComplement", "-", "no call of parseComplement found")
+	}
+}
